@@ -52,6 +52,7 @@ def package_of(harness):
 
 
 _REBUILT = set()
+_LOCKS = []
 
 
 def _force_rebuild(target_dir):
@@ -61,15 +62,29 @@ def _force_rebuild(target_dir):
     (the scratch copies of the seed / self tests), left artefacts that cargo considered fresh, and Kani then verified the
     previous code -- observed twice as a false alarm on the unchanged tree (DESIGN 10).  Costs one rebuild of sfs-core /
     sfs-cli per check (about 15 s)."""
+    import fcntl
     import glob
     import shutil
     if target_dir in _REBUILT:
         return
     _REBUILT.add(target_dir)
+    # Deleting build output under a concurrently running check would break that check, so the deletion happens only
+    # while no other check uses this target directory: exclusive lock (non-blocking) for the deletion, shared lock for
+    # the rest of the process.  If another check is active it has just rebuilt from the same tree; cargo's own build
+    # lock serialises the compilations.
+    os.makedirs(target_dir, exist_ok=True)
+    lock = open(os.path.join(target_dir, '.verif-rebuild.lock'), 'w')
+    _LOCKS.append(lock)
+    try:
+        fcntl.flock(lock, fcntl.LOCK_EX | fcntl.LOCK_NB)
+    except OSError:
+        fcntl.flock(lock, fcntl.LOCK_SH)
+        return
     for pkg in ('sfs-core', 'sfs-cli'):
         for d in (glob.glob(os.path.join(target_dir, '**', 'build', pkg), recursive=True)
                   + glob.glob(os.path.join(target_dir, '**', '.fingerprint', pkg + '-*'), recursive=True)):
             shutil.rmtree(d, ignore_errors=True)
+    fcntl.flock(lock, fcntl.LOCK_SH)
 
 
 def _refresh_bin_crate():
